@@ -11,3 +11,12 @@ def register_all(reg):
     reg("C19", "seqx", "model_checking", "explicit-state BFS over operation histories of the real computation/Agent/Messaging code, canonical-state dedup, reference-list oracle",
         "All histories up to the stated length over receptions from two senders, posts, start, pause, resume and agent-loop steps are executed on the real MessagePassingComputation hosted by a real Agent/Messaging; each state and its drained continuation is compared with a two-list reference model (reception order, posting order).",
         "The agent loop is played by the harness (no thread); only MSG_ALGO environment messages. " + E2_NOTE, "DESIGN.md 3 C19")
+
+    NETX_NOTE = ("Explores the real computation objects under a virtual network with one FIFO channel per ordered pair (more liberal than the real transports); "
+                 "bounds: <=3-4 variables, 2-3 values, 2-3 cycles; random draws from finite menus; state merging by canonical form (sorted dicts/sets).")
+    reg("C03", "netx", "model_checking", "explicit-state search of the real computations over a virtual FIFO network (all interleavings, start orders, random answers; state caching)",
+        "Per small DCOP instance every reachable state of the real MGM/MGM2 computations is visited and every completed cycle boundary is checked against a brute-force reference cost and the exclusive-mover rule.",
+        NETX_NOTE, "DESIGN.md 3 C03")
+    reg("C04", "netx", "model_checking", "explicit-state search of the real computations over a virtual FIFO network (all interleavings, start orders, random answers; state caching)",
+        "Same exploration as C03; at every idle cycle boundary the assignment is checked for 1-optimality by two nested loops over variables and values.",
+        NETX_NOTE, "DESIGN.md 3 C04")
